@@ -272,11 +272,11 @@ class Kit:
                     L = np.array(L, dtype=object)
                 if isinstance(R, S.Sym):
                     R = np.array(R, dtype=object)
-                try:
-                    L, R = np.broadcast_arrays(L, R)
-                except ValueError:
-                    self._add(label, S.FALSE, f"shape mismatch {L.shape} vs {R.shape}")
+                if L.shape != R.shape and L.ndim != 0 and R.ndim != 0:
+                    # shapes are part of a contract: only scalars broadcast
+                    self._add(label, S.FALSE, f"shape mismatch {L.shape} vs {R.shape}", kind="raise")
                     return
+                L, R = np.broadcast_arrays(L, R)
                 self.run.records.append((label, L.copy(), R.copy()))
                 saved = S.ORACLE[0]
                 S.ORACLE[0] = None  # spec arithmetic must not log safety obligations
@@ -298,6 +298,8 @@ class Kit:
             R = np.asarray(rhs, dtype=float)
             t = max(tol, 2e-4) if self.fd_used else tol
             try:
+                if L.shape != R.shape and L.ndim != 0 and R.ndim != 0:
+                    raise ValueError("shape mismatch")
                 L, R = np.broadcast_arrays(L, R)
                 scale = 1.0 + max(np.max(np.abs(L), initial=0.0), np.max(np.abs(R), initial=0.0))
                 err = np.abs(L - R) / scale
